@@ -110,9 +110,10 @@ def fam_bezier_poly(R, deg, degenerate=False):
         def roots_stub(p):
             cap['p'] = p
             return []
+        cap.pop('p', None)
         with patched(PT, np=NPProxy(roots=roots_stub)):
             r = C(*ps).radialrange(z)
-        return ps, z, t, cap['p'], r
+        return ps, z, t, cap.get('p'), r
 
     for ctx, (kind, val) in explore(run, maxpaths=2000):
         R.path(ctx, nontrivial=True)
@@ -120,6 +121,17 @@ def fam_bezier_poly(R, deg, degenerate=False):
             R.error('unexpected %s %r' % (kind, val))
             continue
         ps, z, t, p, r = val
+        (dmin_, tmin_), (dmax_, tmax_) = r
+        cexg = lambda m: {'cls': 'bezier_radialrange result', 'inputs': str([mcval(m, q) for q in ps]),
+                          'script': REPLAY_RR % ([mcval(m, q) for q in ps], mcval(m, z), 0.5)}
+        # whatever route the code took: the reported distances are the distances at the reported parameters
+        R.ob('deg%d.d=|point(t)-z|' % deg, ctx, z3.And(sq(lift(dmin_)) == dist2(bern(ps, lift(tmin_)), z).e, sq(lift(dmax_)) == dist2(bern(ps, lift(tmax_)), z).e,
+                                                         lift(tmin_).e >= 0, lift(tmin_).e <= 1, lift(tmax_).e >= 0, lift(tmax_).e <= 1),
+             cex=cexg, timeout_ms=60000, robust=[z3.And(*[z3.And(zabs(q.real.e) <= 9, zabs(q.imag.e) <= 9) for q in ps])])
+        if p is None:
+            # the root finder was not consulted on this path: nothing guarantees interior extrema are considered
+            R.ob('deg%d.root-finder-consulted' % deg, ctx, z3.BoolVal(False), cex=cexg)
+            continue
         co = list(np.asarray(p.coeffs if hasattr(p, 'coeffs') else p))
         got = lift(0)
         for cf in co:
@@ -255,6 +267,13 @@ if kmin is None or kmax is None: REPRODUCED('no segment index returned: %%r' %% 
 if abs(dmin - gmin) > 1e-9 or abs(dmax - gmax) > 1e-9: REPRODUCED('path radialrange %%r but per-segment extremes are %%r / %%r' %% (p.radialrange(z), gmin, gmax))
 if abs(abs(p[kmin].point(tmin) - z) - dmin) > 1e-9 or abs(abs(p[kmax].point(tmax) - z) - dmax) > 1e-9: REPRODUCED('index/t do not attain the distance')
 if closest_point_in_path(z, p) != p.radialrange(z)[0] or farthest_point_in_path(z, p) != p.radialrange(z)[1]: REPRODUCED('closest/farthest_point_in_path disagree')
+# the same reduction on paths that contain closed loops (start == end) and exactly-on-path query points
+loop = CubicBezier(10+0j, 16+6j, 4+6j, 10+0j)
+for q_, zz in ((Path(Line(0j, 10+0j), loop, Line(10+0j, 20+0j)), 10+5j), (Path(loop), 10+9j), (Path(Line(0j, 4+0j), Line(4+0j, 4+30j)), 4+0j)):
+    (a, ta, ka), (b, tb, kb) = q_.radialrange(zz)
+    per = [s_.radialrange(zz) for s_ in q_]
+    if ka is None or kb is None or abs(a - min(r_[0][0] for r_ in per)) > 1e-9 or abs(b - max(r_[1][0] for r_ in per)) > 1e-9:
+        REPRODUCED('Path.radialrange(%%r) of %%r = %%r; per-segment results %%r' %% (zz, q_, q_.radialrange(zz), per))
 '''
 
 
